@@ -983,6 +983,12 @@ def _make_injection(inj, obs):
                                    'handler': repr(S.mainproc.handlers.get(sim.SIGINT)).split(' at ')[0][:60], 'site': site}
                 S.rec('inject-sigint')
                 S.mainproc.pending.append(sim.SIGINT)
+                if inj.get('group'):
+                    # Ctrl-C in a terminal: the signal goes to the whole foreground process group, i.e. to every worker process too
+                    for p in list(S.procs.values()):
+                        if p is not S.mainproc and not p.killed and not (p.main_st is not None and p.main_st.done):
+                            p.pending.append(sim.SIGINT)
+                    obs['injected']['group'] = True
     return hook
 
 
